@@ -583,6 +583,66 @@ example :
     ∧ classify (outOfScript .native [] 1000 [7] (.addr .p2pkh (.account [7])) none) = .bogusPath
     ∧ classify (outOfScript .native [] 1000 [] (.addr .p2wpkh (.account [7])) none) = .unknown := by decide
 
+/-- an output as the request presents it: value, derivation path, script, and the channel found for its outpoint -/
+structure OutDesc where
+  value : Nat
+  path : List Nat
+  script : Script
+  chan : Option ChanFacts
+
+def OutDesc.facts (style : Style) (allow : List Allowable) (d : OutDesc) : Out :=
+  outOfScript style allow d.value d.path d.script d.chan
+
+/-- what the property allows an output of an accepted transaction to be -/
+def OutDesc.PaysOk (style : Style) (allow : List Allowable) (d : OutDesc) : Prop :=
+  (d.path ≠ [] ∧ PathFits style d.path ∧ SpendableForm d.script (.account d.path)) ∨
+  .script d.script ∈ allow ∨
+  (d.path ≠ [] ∧ d.path.any hardened = false ∧ ∃ j, .xpub j ∈ allow ∧ XpubForm d.script (xpubKey j d.path)) ∨
+  (∃ c, d.chan = some c ∧ ChanOk (d.facts style allow) c)
+
+theorem classify_channel (o : Out) (c : ChanFacts) (h : classify o = .channel c) : o.chan = some c := by
+  unfold classify at h
+  split at h
+  · split at h <;> try cases h
+    split at h <;> try cases h
+    split at h <;> cases h
+  · split at h
+    · cases h
+    · split at h
+      · rename_i c' hc; cases h; exact hc
+      · cases h
+
+/-- **C08 (value, at the level of scripts)**: when `validate_onchain_tx` returns `Ok` under a strict filter, every output
+    pays a segwit form of the node's own key at its path, a listed script, a child of an allowlisted extended key, or is
+    the funding output of a validated channel — and the fee bound of `C08_value` holds -/
+theorem C08_value_scripts (p : Policy) (r : Req) (w nb : Nat) (hs : p.flt.Strict) (hdev : p.devDisable = false)
+    (style : Style) (allow : List Allowable) (ds : List OutDesc) (hr : r.outs = ds.map (OutDesc.facts style allow))
+    (h : validateOnchain p r w = .ok nb) :
+    (∀ d ∈ ds, d.PaysOk style allow) ∧ 0 < w ∧ (nb * 1000 + 999) / w ≤ p.maxFeerate := by
+  obtain ⟨hacc, _, _, hw, hq⟩ := C08_value p r w nb hs hdev h
+  refine ⟨?_, hw, hq⟩
+  intro d hd
+  have ha : Accepted (d.facts style allow) := hacc _ (by rw [hr]; exact List.mem_map_of_mem hd)
+  have hc := C08_credited_scripts style allow d.value d.path d.script d.chan
+  unfold Accepted at ha
+  unfold OutDesc.PaysOk
+  cases hcl : classify (d.facts style allow) with
+  | wallet => exact Or.inl (hc.1 hcl)
+  | xpubAllow => exact Or.inr (Or.inr (Or.inl (hc.2.1 hcl)))
+  | scriptAllow => exact Or.inr (Or.inl (hc.2.2 hcl))
+  | channel c =>
+    rw [hcl] at ha
+    exact Or.inr (Or.inr (Or.inr ⟨c, classify_channel _ c hcl, ha⟩))
+  | unknown => rw [hcl] at ha; exact absurd ha (by simp)
+  | bogusPath => rw [hcl] at ha; exact absurd ha (by simp)
+  | fault => rw [hcl] at ha; exact absurd ha (by simp)
+
+/-- not vacuous: a change output to the own key at path [7] and a listed script, with a 1000 sat fee -/
+example : validateOnchain ⟨333333, false, Filter.default⟩
+    ⟨2, 100, 437, 1, [true], [101000], [], 2,
+      [(⟨60000, [7], .addr .p2wpkh (.account [7]), none⟩ : OutDesc).facts .native [.script (.other 3)],
+       (⟨40000, [], .other 3, none⟩ : OutDesc).facts .native [.script (.other 3)]]⟩ 437 = .ok 1000 := by decide
+
 end WalletLogic
 
 end VlsModel.Props.C08
